@@ -1420,6 +1420,139 @@ def aliases(ctx, res, binary=None, env=None, sanitizer=False):
                                 recursive=cases[40].info['rec'], impl=obs_class(cases[40]), model=model[40]))
 
 
+# ------------------------------------------------------------------------------ accounts called Unknown
+
+UNK_PAYEES = ['Grocer', 'GROCER Ltd', 'The Grocer', 'grocery store', 'Kiosk', 'kiosk 7', 'Baker', 'Bakery Store', 'X']
+UNK_WORDS = ['grocer', 'Grocer', 'GROCER', 'kiosk', 'Baker', 'ery', 'store', 'Ltd', 'o', 'x', 'Grocer Ltd', 'nobody']
+UNK_TARGETS = ['Expenses:Food', 'Expenses:Snacks', 'Misc:Unknown', 'Unknown', 'Expenses:Bread', 'Expenses:Unknown']
+UNK_NAMES = ['Expenses:Unknown', 'Unknown', 'Expenses:Unknown', 'A:B:Unknown', 'Expenses:Unknown:Sub', 'Expenses:unknown', 'Expenses:Unknowns',
+             'Expenses:Known', 'Unknown:Expenses']
+UNK_VERBS = [['bal'], ['print'], ['reg', '--budget', '--monthly'], ['reg', '--forecast-while', 'd<[2021/09/01]'], ['accounts'], ['stats'],
+             ['budget'], ['bal', '--flat', '--no-total'], ['csv'], ['equity'], ['reg', '--strict'], ['bal', '--pedantic'], ['payees'], ['xml']]
+
+
+def unknown_journal(rng):
+    """one journal of the class: `account T / payee REGEX` directives (the table), `account N`
+    directives, automated and periodic transactions and dated transactions whose postings go to
+    accounts called Unknown (or nearly so).
+    -> (text, registrations, expected register accounts)   registration = (who, name, payee, table so far, where)"""
+    lines, regs, rows = [], [], []
+    table = []                      # (start, end, word, target) in file order
+    rules = []                      # accounts of the automated postings read so far, with the rule's place
+    def payee_directive():
+        w = rng.choice(UNK_WORDS)
+        st, en = rng.random() < 0.4, rng.random() < 0.25
+        t = rng.choice(UNK_TARGETS)
+        lines.append('account %s\n    payee %s%s%s\n' % (t, '^' if st else '', w, '$' if en else ''))
+        regs.append(('nopost', t, None, list(table), 'directive'))
+        table.append((st, en, w, t))
+    def account_directive():
+        n = rng.choice(UNK_NAMES)
+        lines.append('account %s\n' % n)
+        regs.append(('nopost', n, None, list(table), 'directive'))
+    def rule():
+        n = rng.choice(UNK_NAMES[:4] + ['Budget:Unknown', 'Budget:Other'])
+        kind = rng.choice(['(%s)  $1', '(%s)  (amount * -1)', '[%s]  $1\n    [Budget:Pool]  $-1'])
+        lines.append('= /^Assets:Cash$/\n    %s\n' % (kind % n))
+        regs.append(('noxact', n, None, list(table), 'automated'))
+        extra = []
+        if 'Budget:Pool]' in kind:
+            regs.append(('noxact', 'Budget:Pool', None, list(table), 'automated'))
+            extra = ['Budget:Pool']
+        rules.append([n] + extra)
+    def periodic():
+        n = rng.choice(UNK_NAMES[:5])
+        lines.append('~ %s\n    %s  $50.00\n    Assets:Cash\n' % (rng.choice(['Monthly', 'Weekly', 'Yearly', 'every 2 months from 2021/01/01']), n))
+        regs.append(('noxact', n, None, list(table), 'periodic'))
+        regs.append(('noxact', 'Assets:Cash', None, list(table), 'periodic'))
+    def dated(day):
+        payee = rng.choice(UNK_PAYEES)
+        n = rng.choice(UNK_NAMES)
+        lines.append('2021/06/%02d %s\n    %s  $%d.00\n    Assets:Cash\n' % (day, payee, n, rng.randint(1, 40)))
+        regs.append(('dated', n, payee, list(table), 'dated'))
+        regs.append(('dated', 'Assets:Cash', payee, list(table), 'dated'))
+        rows.append(len(regs) - 2)
+        rows.append(len(regs) - 1)
+        # every rule read so far matches the one posting to Assets:Cash and adds its postings,
+        # registered again without a transaction, against the table as it is now
+        for accts in rules:
+            for a in accts:
+                regs.append(('noxact', a, None, list(table), 'generated'))
+                rows.append(len(regs) - 1)
+    for _ in range(rng.choice([0, 1, 1, 2, 3])):
+        payee_directive()
+    shape = rng.random()
+    steps = []
+    if shape < 0.75:
+        steps += ['rule'] * rng.choice([0, 1, 1, 2]) + ['periodic'] * rng.choice([0, 1, 1]) + ['account'] * rng.choice([0, 0, 1])
+        rng.shuffle(steps)
+    steps += ['dated'] * rng.randint(1, 3)
+    if rng.random() < 0.3:
+        # directives that come late: they apply to what follows only
+        steps.insert(rng.randrange(len(steps) + 1), 'payee')
+        steps += [rng.choice(['rule', 'periodic', 'account']), 'dated']
+    day = 0
+    for st in steps:
+        if st == 'dated':
+            day += 1
+            dated(day)
+        else:
+            dict(rule=rule, periodic=periodic, account=account_directive, payee=payee_directive)[st]()
+    return '\n'.join(lines), regs, rows
+
+
+def unknown_accounts(ctx, res, binary=None, env=None, sanitizer=False):
+    """journal_t::register_account, the payee look-up for accounts whose last segment is Unknown:
+    every kind of registrant (account directive, posting of an automated / periodic / dated
+    transaction, posting generated by an automated transaction) against tables of 0-4 entries"""
+    rng = ctx.rng
+    cases, lines, plans = [], [], []
+    for k in range(ctx.scale(120, 800)):
+        text, regs, rows = unknown_journal(rng)
+        wheres = sorted({r[4] for r in regs if r[0] != 'dated' and r[3] and r[1].split(':')[-1] == 'Unknown'})
+        cls = '+'.join(wheres) if wheres else ('dated' if any(r[3] for r in regs) else 'no-table')
+        first = len(lines)
+        for i, (who, name, payee, table, where) in enumerate(regs):
+            lines.append(lib.sx(['unknown', 'u%d.%d' % (k, i), who, name, payee.encode().hex() if payee else '-',
+                                 [[st, en, w.encode().hex(), t] for st, en, w, t in table]]))
+        main = Case('unknown-account-payee:' + cls, text, ['reg', '--format', '%(account)\n'] + NOW,
+                    info=dict(k=k, first=first, n=len(regs), rows=rows, regs=regs, main=True))
+        cases.append(main)
+        for v in rng.sample(UNK_VERBS, 2):
+            cases.append(Case('unknown-account-payee:' + cls, text, v + NOW, info=dict(k=k, first=first, n=len(regs), regs=regs, main=False)))
+    run_cases(ctx, cases, 'unk', binary, env)
+    model = lib.run_model('C11', lines) if not sanitizer else None
+    for c in cases:
+        res.evaluations += 1
+        res.count('unknown:' + c.construct.split(':', 1)[1])
+        add_violations(res, c, judge(c, sanitizer))
+        if sanitizer:
+            continue
+        got = obs_class(c)
+        ml = [l.split(' ', 1)[1] for l in model[c.info['first']:c.info['first'] + c.info['n']]]
+        null = [i for i, l in enumerate(ml) if l == 'NullDeref']
+        if null:
+            # the model reads the null pointer for one of the registrations: no report is predicted
+            if not (got.startswith('signal') or got == 'timeout'):
+                res.disagreements.append(dict(name='C11/unknown-account-payee', case=c.journal[:600], impl=got, model='NullDeref at %s' % (c.info['regs'][null[0]],)))
+            continue
+        if got.startswith('signal') or got == 'timeout':
+            res.disagreements.append(dict(name='C11/unknown-account-payee', case=c.journal[:600], impl=got, model='every registration answered'))
+            continue
+        if not c.info['main']:
+            continue
+        res.traces += 1
+        if any(r[3] and r[1].split(':')[-1] == 'Unknown' for r in c.info['regs']):
+            res.nontrivial.add('unknown:' + c.journal)
+        want = [ml[i].split(' ', 1)[1] for i in c.info['rows']]
+        have = [l.strip().strip('()[]') for l in c.result[1].decode('latin-1').split('\n') if l.strip()]
+        if got != 'ok' or want != have:
+            res.disagreements.append(dict(name='C11/unknown-account-payee', case=c.journal[:600], impl='%s %s' % (got, have), model=want))
+    if cases and len(res.samples) < 10:
+        c = cases[0]
+        res.samples.append(dict(construct=c.construct, journal=c.journal[:300], impl=obs_class(c)))
+
+
 # ------------------------------------------------------------------------------ mutation stream
 
 _CORPUS = None
@@ -1873,7 +2006,7 @@ def run(ctx, light=False):
     phases = [('buffers', lambda: buffers(ctx, res, sites)), ('escapes', lambda: escapes(ctx, res)),
               ('nesting', lambda: nesting(ctx, res)), ('division', lambda: division(ctx, res)),
               ('periods', lambda: periods(ctx, res)), ('truncated', lambda: truncated(ctx, res)),
-              ('long_tokens', lambda: long_tokens(ctx, res)), ('formats', lambda: formats(ctx, res)), ('aliases', lambda: aliases(ctx, res)), ('uuid_duplicates', lambda: uuid_duplicates(ctx, res)), ('definition_recursion', lambda: definition_recursion(ctx, res)), ('option_values', lambda: option_values(ctx, res)),
+              ('long_tokens', lambda: long_tokens(ctx, res)), ('formats', lambda: formats(ctx, res)), ('aliases', lambda: aliases(ctx, res)), ('unknown_accounts', lambda: unknown_accounts(ctx, res)), ('uuid_duplicates', lambda: uuid_duplicates(ctx, res)), ('definition_recursion', lambda: definition_recursion(ctx, res)), ('option_values', lambda: option_values(ctx, res)),
               ('query_keywords', lambda: query_keywords(ctx, res)), ('rule_predicates', lambda: rule_predicates(ctx, res)),
               ('commodity_values', lambda: commodity_values(ctx, res)), ('repetition', lambda: repetition(ctx, res)), ('early_options', lambda: early_options(ctx, res)),
               ('function_arguments', lambda: function_arguments(ctx, res)),
@@ -1901,6 +2034,7 @@ def search(ctx, broken):
         long_tokens(ctx, r)
         formats(ctx, r)
         aliases(ctx, r)
+        unknown_accounts(ctx, r)
         uuid_duplicates(ctx, r)
         definition_recursion(ctx, r)
         option_values(ctx, r)
